@@ -363,6 +363,20 @@ func c13(r *Run) {
 				_, isFV := st.Addr.(*ssa.FreeVar)
 				return isFV
 			}, nil, nil, "activeConn++ on every path from the busy edge")
+		// every tracked connection the sweep visits is closed or counted: nothing is skipped on some other ground (a connection
+		// the poller marked closed but whose teardown waits for the user's Close - a handler-less server - is closed by this Close)
+		r.mustPass("C13.R3:visited-is-closed-or-counted", "every connection the Shutdown sweep visits is either closed by it or counted as active: a tracked connection that is skipped (because it looks closed already, ...) is neither torn down nor waited for, and Shutdown returns nil with it still tracked", scan, nil, []Start{Entry(scan)},
+			func(i ssa.Instruction) bool {
+				if cc := callCommon(i); cc != nil && cc.IsInvoke() && cc.Method.Name() == "Close" {
+					return true
+				}
+				st, ok := i.(*ssa.Store)
+				if !ok {
+					return false
+				}
+				_, isFV := st.Addr.(*ssa.FreeVar)
+				return isFV
+			}, nil, nil, "Close() or activeConn++ on every path of the Range callback")
 		// the scan visits every entry: the callback always returns true
 		ss := &Search{Fn: scan}
 		all := true
